@@ -373,6 +373,16 @@ pub fn gen_range_new(o: &mut Out, tier: &str, sd: u64, honest: bool) {
             // identity commitment (amount 0, opening 0)
             let mut s = statement(&mut r, &good); s.amounts[0] = 0; s.opens[0] = Scalar::ZERO; s.comms[0] = commit(&Scalar::ZERO, &Scalar::ZERO);
             o.op_exp("range.identity-commitment", "err", &format!("rnew {} {} {}", w, s.args(), seed(&mut r)));
+            // ... in every slot of every batch size (1, 2, 4 and the full 8 commitments)
+            for m in [1usize, 2, 4, 8] {
+                if w / m > 64 || w / m == 0 { continue; }
+                let split = vec![w / m; m];
+                for slot in 0..m {
+                    let mut s = statement(&mut r, &split);
+                    s.amounts[slot] = 0; s.opens[slot] = Scalar::ZERO; s.comms[slot] = commit(&Scalar::ZERO, &Scalar::ZERO);
+                    o.op_exp("range.identity-commitment-slot", "err", &format!("rnew {} {} {}", w, s.args(), seed(&mut r)));
+                }
+            }
             // bit lengths: zero, above 64, wrong sum
             let z: Vec<usize> = if w == 64 { vec![64, 0] } else { let mut v = good.clone(); v.push(0); v };
             let s = statement(&mut r, &z);
